@@ -286,3 +286,37 @@ pub fn external_judges(archives: &[(Vec<u8>, Option<String>)], tag: &str) -> Res
     let _ = std::fs::remove_dir_all(&dir);
     r
 }
+
+/// Third producer: Info-ZIP `zip`. Writes the files into a scratch directory and archives them
+/// with the given flags (e.g. -fd data descriptors, -fz forced ZIP64, -e -P pw, -0/-9, -Z bzip2).
+pub fn infozip_archive(files: &[(String, Vec<u8>)], flags: &[String]) -> Result<Vec<u8>, String> {
+    static SEQ: std::sync::atomic::AtomicU64 = std::sync::atomic::AtomicU64::new(0);
+    let dir = std::path::PathBuf::from(format!("/var/tmp/zv-iz-{}-{}", std::process::id(), SEQ.fetch_add(1, std::sync::atomic::Ordering::Relaxed)));
+    let _ = std::fs::remove_dir_all(&dir);
+    std::fs::create_dir_all(dir.join("t")).map_err(|e| format!("harness: {e}"))?;
+    let r = (|| -> Result<Vec<u8>, String> {
+        for (n, c) in files {
+            let p = dir.join("t").join(n);
+            if let Some(par) = p.parent() {
+                std::fs::create_dir_all(par).map_err(|e| format!("harness: {e}"))?;
+            }
+            std::fs::write(&p, c).map_err(|e| format!("harness: {e}"))?;
+        }
+        let mut cmd = std::process::Command::new("zip");
+        cmd.current_dir(dir.join("t")).arg("-q").arg("-X");
+        for f in flags {
+            cmd.arg(f);
+        }
+        cmd.arg("../out.zip");
+        for (n, _) in files {
+            cmd.arg(n);
+        }
+        let o = cmd.output().map_err(|e| format!("harness: zip: {e}"))?;
+        if !o.status.success() {
+            return Err(format!("harness: zip failed: {}", String::from_utf8_lossy(&o.stderr)));
+        }
+        std::fs::read(dir.join("out.zip")).map_err(|e| format!("harness: {e}"))
+    })();
+    let _ = std::fs::remove_dir_all(&dir);
+    r
+}
